@@ -259,6 +259,10 @@ static void part_values(Report& rp, bool quick, int shard, int nshards) {
                         if (reinterpret_cast<uintptr_t>(g.ptr) % al != 0) rp.fail("value:alignment", "pointer not aligned to " + std::to_string(al), rep);
                         if (created != g.ptr) rp.fail("value:created_ptr", "created_value_ptr differs from the pointer returned by get", rep);
                     }
+                    {
+                        std::string me = ykc::check_mem_usage(ti, kSt);
+                        if (!me.empty()) rp.fail("mem_usage:mismatch", me, rep);
+                    }
                     // scan
                     std::vector<ykc::ScanTuple> out;
                     ykc::t_scan(ti, "", scan_endpoint::INF, "", scan_endpoint::INF, out);
